@@ -12,7 +12,7 @@
  * word against its description: the check uses it to show that the oracle sees a 4-byte overrun); a CPU-time limit (4 s, SIGPROF) turns a hang into an observation.
  *
  * Request lines (all integers; `gen` writes the line and executes it through the routine `exec` uses):
- *   comp op gside ca  <img dst> <img src> <img mask>  sx sy mx my dx dy w h  clip
+ *   comp op gside ca  <img dst> <img src> <img mask>  sx sy mx my dx dy w h  clip     (14 % of the lines: exact-hit requests, gen_exact)
  *   trap kind gside <img dst> xoff yoff n  v...       kind 0 rasterize_trapezoid (10 ints each),
  *        1 add_traps (6 ints each), 2 composite_trapezoids(op,maskfmt) 3 add_trapezoids 4 composite_triangles (6 ints each)
  *   fill kind gside <img dst> op n  x y w h ...       kind 0 fill_boxes (x1 y1 x2 y2), 1 fill_rectangles (x y w h)
@@ -517,6 +517,24 @@ static int g_fast;	/* fast-path-friendly request: common formats, scale-only tra
 typedef __int128 i128;
 static i128 rhu (i128 n) { n += 32768; return n >= 0 ? n / 65536 : -((-n + 65535) / 65536); }
 
+/* (ii) the same mapping written with another homogeneous scale: every entry times f, bottom row (0 0 f) --
+ * a "scaled affine" matrix that only the projective code may handle (the affine paths never divide by w) */
+static void g_rescale (pixman_transform_t *t)
+{
+    static const int num[] = { 2, 3, -1, 1, -2, 5, 1, 3 }, den[] = { 1, 1, 1, 2, 1, 1, 4, 2 };
+    int c = rng_n (8), i, j;
+    pixman_transform_t r;
+    for (i = 0; i < 3; i++) for (j = 0; j < 3; j++)
+    {
+	int64_t v = (int64_t) t->matrix[i][j] * num[c];
+	if (v % den[c]) return;			/* keep the mapping exact */
+	v /= den[c];
+	if (v > 2147483647LL || v < -2147483647LL - 1) return;
+	r.matrix[i][j] = (pixman_fixed_t) v;
+    }
+    *t = r;
+}
+
 /* transform for a source of size w x h sampled over destination-space box (x1,y1)-(x2,y2) */
 static void g_transform (int w, int h, int x1, int y1, int x2, int y2, int filt)
 {
@@ -564,8 +582,58 @@ static void g_transform (int w, int h, int x1, int y1, int x2, int y2, int filt)
 	t.matrix[2][1] = rng_chance (60) ? rng_range (-400, 400) : g_fixed ();
 	t.matrix[2][2] = rng_chance (70) ? 65536 + rng_range (-3000, 3000) : g_fixed ();
     }
+    if (k < 80 && rng_chance (12)) g_rescale (&t);
     emit (" + %d %d %d %d %d %d %d %d %d", t.matrix[0][0], t.matrix[0][1], t.matrix[0][2], t.matrix[1][0], t.matrix[1][1], t.matrix[1][2],
 	  t.matrix[2][0], t.matrix[2][1], t.matrix[2][2]);
+}
+
+/* (i) exact-hit requests for the scaled fast paths: a 64..300 px wide source (narrower ones go through the
+ * stack-buffer extension), bilinear (or nearest), every repeat mode, scale-only transform whose translation is
+ * solved so that the sample of the first / an interior / the last destination pixel lands EXACTLY (fraction 0,
+ * or +-1,2 units) on column 0, width-1 or width (any period for NORMAL), rows likewise, minimal stride, no
+ * clipping by the destination, so that the pair load [x],[x+1] at the row that is last (or first) in memory
+ * touches the guard page if the segmentation is off by one */
+static void gen_exact (char *out, int gside)
+{
+    static const int dfm[] = { 0, 0, 1, 4 }, sfm[] = { 0, 0, 0, 1, 1, 4, 5 };
+    static const int32_t sc[] = { 65536, 32768, 32768, 131072, 98304, 21845, 43691, 16384, 65535, 65537, 49152, 8192, 196608 };
+    static const int opsx[] = { 1, 1, 3, 3, 12 };
+    int dfi = dfm[rng_n (4)], sfi = sfm[rng_n (7)], dw = rng_range (8, 80), dh = rng_range (1, 6);
+    int W = rng_chance (80) ? rng_range (64, 300) : rng_range (2, 63), H = rng_range (1, 4);
+    int rep = rng_n (4), filt = rng_chance (85) ? 1 : 0, op = opsx[rng_n (5)], mk = rng_n (20);
+    int dx = rng_range (0, 3), dy = rng_range (0, dh > 1 ? 1 : 0), w, h, sx = rng_chance (60) ? 0 : rng_range (0, 5), sy = rng_chance (70) ? 0 : rng_range (0, 3);
+    int kx, ky, col, row, r;
+    pixman_transform_t t;
+    if (dx >= dw) dx = 0;
+    w = rng_chance (50) ? dw - dx : rng_range (1, dw - dx); h = rng_chance (60) ? dh - dy : rng_range (1, dh - dy);
+    pixman_transform_init_identity (&t);
+    t.matrix[0][0] = rng_chance (85) ? sc[rng_n (13)] : (int32_t) rng_range (2000, 300000);
+    t.matrix[1][1] = rng_chance (85) ? sc[rng_n (13)] : (int32_t) rng_range (2000, 300000);
+    if (rng_chance (8)) t.matrix[0][0] = -t.matrix[0][0];
+    if (rng_chance (8)) t.matrix[1][1] = -t.matrix[1][1];
+    kx = rng_chance (35) ? 0 : rng_chance (50) ? w - 1 : rng_n (w);
+    ky = rng_chance (50) ? 0 : h - 1;
+    { static const int cs[] = { 0, -1, -2, -2, -2, -3 }; int c = cs[rng_n (6)]; col = c == 0 ? 0 : c == -1 ? -1 : c == -2 ? W - 1 : W; }
+    { int c = rng_n (5); row = c == 0 ? 0 : c == 1 ? -1 : c == 2 ? H - 1 : c == 3 ? H : H - 2; }
+    if (rep == 1) { col += W * rng_range (-1, 2); row += H * rng_range (-1, 1); }
+    for (r = 0; r < 2; r++)
+    {
+	int k = r ? sy + ky : sx + kx, c = r ? row : col, dk = rng_n (10);
+	int64_t delta = dk < 6 ? 0 : dk == 6 ? 1 : dk == 7 ? -1 : dk == 8 ? rng_range (-3, 3) : (r ? rng_range (0, 65535) : 32768 * rng_range (-1, 1));
+	i128 want = (i128) c * 65536 + delta + (filt ? 32768 : 1);		/* X(k) such that (X - 1/2) or (X - e) is c.0 + delta */
+	i128 m = want - rhu ((i128) t.matrix[r][r] * ((i128) k * 65536 + 32768));
+	t.matrix[r][2] = (m >= -(i128) 2147483648LL && m <= 2147483647) ? (pixman_fixed_t) m : 0;
+    }
+    if (rng_chance (15)) g_rescale (&t);
+    gp = out;
+    emit ("comp %d %d 0", op, gside);
+    emit (" B %d %d %d 0 %d 0 0 0 0 1 1 0 0 %llu -", dfi, dw, dh, rng_chance (30), (unsigned long long) (rng_u64 () >> 20));
+    emit (" B %d %d %d 0 %d 0 0 %d %d 1 1 0 0 %llu + %d %d %d %d %d %d %d %d %d", sfi, W, H, rng_chance (50), rep, filt, (unsigned long long) (rng_u64 () >> 20),
+	  t.matrix[0][0], t.matrix[0][1], t.matrix[0][2], t.matrix[1][0], t.matrix[1][1], t.matrix[1][2], t.matrix[2][0], t.matrix[2][1], t.matrix[2][2]);
+    if (mk < 12) emit (" N");
+    else if (mk < 15) emit (" S %u", rng_u32 ());
+    else emit (" B 5 %d %d 0 %d 0 0 0 0 1 1 0 0 %llu -", dw + 8, dh + 4, rng_chance (30), (unsigned long long) (rng_u64 () >> 20));
+    emit (" %d %d 0 0 %d %d %d %d 0", sx, sy, dx, dy, w, h);
 }
 
 static int g_dim (int role)
@@ -635,6 +703,7 @@ static void gen_line (char *out)
     static const int ops[] = { 1, 3, 3, 3, 3, 12, 12, 0, 2, 4, 5, 6, 7, 8, 9, 10, 11, 13, 1, 3 };	/* SRC, OVER, ADD weighted; all PD ops */
     int k = rng_n (100), gside = rng_chance (50), dw, dh, sw, sh, mw, mh;
     gp = out;
+    if (k < 14) { gen_exact (out, gside); return; }
     if (k < 70)
     {
 	int op = ops[rng_n (20)], ca = rng_chance (20), w, h, dx, dy, sx, sy, mx, my, sk = rng_n (20), mk = rng_n (10);
